@@ -195,10 +195,28 @@ func init() {
 				default:
 					stream = g.Sub().Bytes(24)
 				}
+				if x := c.L("gen:x"); x.Chance(1, 6) {
+					// ftyp headers with a generic major brand and a random list of compatible brands
+					brands := []string{"mif1", "msf1", "miaf", "heic", "heix", "hevc", "avif", "crx ", "isom", "MiHB"}
+					stream = append([]byte{0, 0, 0, byte(16 + 4*x.Intn(6))}, "ftyp"...)
+					stream = append(stream, brands[x.Intn(2)]...)
+					stream = append(stream, 0, 0, 0, 0)
+					for len(stream) < 24 {
+						stream = append(stream, brands[x.Intn(len(brands))]...)
+					}
+				}
 				short := g.Chance(1, 6)
 				if short {
 					stream = stream[:g.Intn(24)]
 				} else {
+					// the bytes right after the 24-byte window sometimes continue with brand and magic
+					// fragments (a longer ftyp brand list, a second header): they must not matter
+					if x := c.L("gen:x"); x.Chance(1, 3) {
+						after := []string{"heic", "avif", "mif1", "miaf", "crx ", "heix", "hevc", "msf1", "II*\x00", "CR\x02\x00", "\x89PNG\r\n\x1a\n", "WEBP", "ftyp"}
+						for k := 1 + x.Intn(3); k > 0; k-- {
+							stream = append(stream, after[x.Intn(len(after))]...)
+						}
+					}
 					stream = append(stream, g.Sub().Bytes(g.Intn(9000))...)
 				}
 				rk := cfg.Intn(harness.NumRK)
